@@ -150,7 +150,9 @@ class Heap(object):
             # a fresh array with a defining equation (triggered on its own selects) instead of a lambda term
             j = z3.Int(fresh_name("j"))
             arr = z3.Const(fresh_name("kids"), IntArr)
-            defs.append(z3.ForAll([j], z3.Select(arr, j) == lst.get(j).t, patterns=[z3.Select(arr, j)]))
+            el = lst.get(j)
+            if hasattr(el, "t"):                 # (the empty list literal has no element term: nothing to define)
+                defs.append(z3.ForAll([j], z3.Select(arr, j) == el.t, patterns=[z3.Select(arr, j)]))
         self.f["child"] = z3.Store(self.f["child"], x.t, arr)
         self.f["nchild"] = z3.Store(self.f["nchild"], x.t, lst.n)
         return defs
